@@ -194,11 +194,10 @@ fn opt_packet(size: usize, olen: usize) -> Vec<u8> {
 }
 
 fn measure(x: &[u8]) -> Result<(u64, bool), String> {
-    verif_hooks::reset();
-    verif_hooks::set_ceiling(subj::step_ceiling(x.len()));
+    subj::arm_steps(x.len());
     let r = caught(|| subj::parse(x).is_ok());
     let steps = verif_hooks::steps();
-    verif_hooks::set_ceiling(u64::MAX);
+    subj::disarm_steps();
     match r {
         Ok(acc) => Ok((steps, acc)),
         Err(p) => Err(p),
